@@ -395,14 +395,15 @@ Section GovProofs.
       unfold update_avail. destruct (get_prop st i) as [p|] eqn:Hg; [|discriminate].
       destruct (h_zero (p_hdr p)); [intro H; inversion H; apply ext_refl|].
       destruct (threshold (sem (h_expr (p_hdr p))) (p_approve p) (p_reject p) (h_total (p_hdr p))) as [th|]; [|discriminate].
-      cbn [d_underflow d_special_updavail cfg_fixed].
+      cbn [d_underflow d_special_updavail d_logout_inc cfg_fixed negb andb].
       pose proof (ext_set_avail st i p n th Hg) as E1.
       set (st1 := set_prop st i (with_avail p n th)) in *.
       assert (get_prop st1 i = Some (with_avail p n th)) as Hg1.
       { unfold st1, get_prop. rewrite get_set_prop. eapply (nth_upd_nth_eq (fun _ => _)). exact Hg. }
       destruct (decide (sem (h_expr (p_hdr p))) false (p_approve p) (p_reject p) (h_total (p_hdr p)) n) eqn:Ed.
       - intro H; inversion H; subst; exact E1.
-      - destruct (h_special (p_hdr p) && negb (p_super p) && negb false) eqn:Eb; [intro H; inversion H; subst; exact E1|].
+      - destruct (h_special (p_hdr p) && negb (p_super p) && true || (p_status p =? ST_PAUSED)) eqn:Eb0; [intro H; inversion H; subst; exact E1|].
+        apply orb_false_iff in Eb0. destruct Eb0 as [Eb _]. rewrite andb_true_r in Eb.
         destruct (2 <=? p_status p) eqn:Ec; [discriminate|].
         intro H. eapply ext_trans; [exact E1|].
         eapply (Hrec st1 i ST_APPROVED RS_ELECTORATE _ st' Hg1); [unfold is_open; cbn [p_status with_avail]; lia | | exact H].
@@ -410,8 +411,9 @@ Section GovProofs.
         cbn [p_hdr p_approve p_reject p_avail p_super with_avail].
         split; [intros _; apply decide_approve in Ed; exact Ed|].
         split; [unfold ST_APPROVED, ST_REJECTED; intro Hx; lia|].
-        intro Hs. rewrite Hs in Eb. destruct (p_super p); [reflexivity | discriminate].
-      - destruct (h_special (p_hdr p) && negb (p_super p) && negb false) eqn:Eb; [intro H; inversion H; subst; exact E1|].
+        intro Hs. rewrite Hs in Eb. destruct (p_super p); [reflexivity | discriminate Eb].
+      - destruct (h_special (p_hdr p) && negb (p_super p) && true || (p_status p =? ST_PAUSED)) eqn:Eb0; [intro H; inversion H; subst; exact E1|].
+        apply orb_false_iff in Eb0. destruct Eb0 as [Eb _]. rewrite andb_true_r in Eb.
         destruct (2 <=? p_status p) eqn:Ec; [discriminate|].
         intro H. eapply ext_trans; [exact E1|].
         eapply (Hrec st1 i ST_REJECTED RS_ELECTORATE _ st' Hg1); [unfold is_open; cbn [p_status with_avail]; lia | | exact H].
@@ -419,7 +421,7 @@ Section GovProofs.
         cbn [p_hdr p_approve p_reject p_avail p_super with_avail].
         split; [unfold ST_APPROVED, ST_REJECTED; intro Hx; lia|].
         split; [intros _; apply decide_reject in Ed; exact Ed|].
-        intro Hs. rewrite Hs in Eb. destruct (p_super p); [reflexivity | discriminate].
+        intro Hs. rewrite Hs in Eb. destruct (p_super p); [reflexivity | discriminate Eb].
     Qed.
 
     Lemma cascade_fold_fail x inc snap c : fold_left (cascade_step sem cfg_fixed rec x inc) snap (Fail c) = Fail c.
